@@ -43,6 +43,14 @@ def obligations(tier):
                     n = 4 * (w + 2) + 1
                 obs.append(Ob(f"{spec_name((kind, name, kw))}/{form}/{level}/n={n}", dict(spec=[kind, name, kw], form=form, level=level, n=n, mtf=(None if (heavy and tier == "quick") else [None, "T2", "T3", None, "t2", "T3"][idx % 6])), CFG,
                               weight=n * (10 if heavy else 1), budget_s=900 if tier == "quick" else 7200, max_paths=100000))
+        # the members registered AFTER construction (add_indicator on a Hexital that already holds its candles and its settings)
+        if not heavy and idx % 3 == 1:
+            for level in (("plain", "lifespan", "HA", "tf") if tier == "quick" else ("plain", "lifespan", "HA", "tf", "tf+fill", "fill")):
+                n = w + 3 + (2 if level == "lifespan" else 0)
+                if LEVELS[level].get("timeframe"):
+                    n = min(2 * n, n + 4)
+                obs.append(Ob(f"{spec_name((kind, name, kw))}/{FORMS[idx % 3]}/{level}/registered after construction/n={n}", dict(spec=[kind, name, kw], form=FORMS[idx % 3], level=level, n=n, mtf="T2", late=True), CFG,
+                              weight=n, budget_s=900 if tier == "quick" else 7200, max_paths=100000))
         # a further member on the partner's / third member's timeframe is registered and removed again before the last
         # append: the remaining members must not notice (they keep being fed on the timeframe the guest shared)
         if (not heavy and idx % 3 == 0) or (tier == "thorough" and name not in ("ADX", "aroon")):
@@ -115,7 +123,12 @@ def run(ctx, P):
         handed = [as_form(s, P["form"] if j == 0 else FORMS[j % 3], **e) for j, (s, e) in enumerate(members)]
         if guest:
             handed.append(build_any(("ind", "SMA", dict(period=2)), timeframe=guest, name_suffix="guest"))
-        hx = Hexital("hx", src[:pre], handed, **level)
+        if P.get("late"):
+            hx = Hexital("hx", src[:pre], None if pre % 2 else [], **level)
+            for h in handed:
+                hx.add_indicator(h)
+        else:
+            hx = Hexital("hx", src[:pre], handed, **level)
         for h in handed:
             if isinstance(h, dict):
                 caller_reuses(h)
